@@ -876,7 +876,9 @@ func (s *Sched) EnvAsleep() bool {
 	s.mu.Lock()
 	defer s.mu.Unlock()
 	for _, t := range s.Tasks {
-		if !t.Lib && t.State == Blocked && t.sleeping {
+		if t.State == Blocked && t.sleeping && (!t.Lib || !strings.Contains(t.Site, ".go:")) {
+			// an environment task, or a library task inside harness code (a
+			// stalling user function), is asleep
 			return true
 		}
 	}
